@@ -29,17 +29,20 @@ txt = f"""## 12. Seeded changes: which checks catch which
 Each change below was written by a fresh sub-agent that was given only the text
 of one property and its own scratch worktree of `/repo` (nothing from
 `/verif`), with the request for a change that still passes the unit tests and
-needs something specific to manifest. There were six rounds (names without a
-round tag, `-r2-` ... `-r6-`): each later round was told what the earlier
+needs something specific to manifest. There were seven rounds (names without a
+round tag, `-r2-` ... `-r7-`): each later round was told what the earlier
 ones had produced and asked for other functions and code paths; the third was
 steered towards silent wrong data behind unusual but legitimate combinations,
 the fourth towards state that survives between calls or objects (caches,
 reused buffers, in-place modification of caller arguments, second invocations,
 error paths that swallow failures), the fifth towards breadth (refactorings,
 NumPy/Python upgrades, the LAST chunk/slice/scale, integer widths, defaults),
-and the sixth was told to imagine a sampling checker and evade it (magnitudes
+the sixth was told to imagine a sampling checker and evade it (magnitudes
 above 2^16/2^24/2^31, NaN and infinities, big-endian files, `python -O`, exit
-without close, symlinks, glob characters, servers without HEAD). After the two
+without close, symlinks, glob characters, servers without HEAD), and the
+seventh (eight properties, two changes each) was told what that checker by now
+includes and asked for two cooperating sites, histories of three or more
+steps, exact magnitudes or counts and three-way option interactions. After the two
 repairs of `/repo` made on the way (69c193f, 9262957) the older patches that
 no longer applied were rebased by hand (`patch.orig.diff` kept beside the
 rebased `patch.diff`). `tools/reeval_seeds.py` re-runs every stored change
@@ -58,11 +61,14 @@ but the oracle accepted everything the run produced. {stats['n']} changes:
 the table), {stats['n'] - stats['own'] - stats['other']} not caught (C16-r6-m1: it only shows for a 3x4 matrix passed
 directly to an internal helper, outside the property; see its history entry).
 Two changes are caught in the thorough tier only (C02-r6-m3, C05-r6-m2: they
-need 300 MB of data; `"tier_needed": "thorough"` in their meta.json), four
+need 300 MB of data; `"tier_needed": "thorough"` in their meta.json), five
 candidates were rejected because they break unit tests, and rates of first-shot
 detection per round (before any strengthening) were roughly 70 % (rounds 1-3),
-58 % (round 4, state across calls), 68 % (round 5, breadth) and 25 % (round 6,
-written to evade a sampling checker): the strengthened generators are what
+58 % (round 4, state across calls), 68 % (round 5, breadth) 25 % (round 6,
+written to evade a sampling checker) and 1 of 15 (round 7: seven of the
+fifteen were written against a mechanism that belongs to a neighbouring property
+and are caught there; the other seven first-shot misses led to the strengthenings
+listed under `-r7-`): the strengthened generators are what
 `seeded/HISTORY.json` lists. The last column records the changes that the first version of a
 check missed and what was strengthened (`seeded/HISTORY.json`); the table shows
 the state after the strengthening, and on the unchanged tree the strengthened
